@@ -87,7 +87,9 @@ def slices(P, R):
                             return (bool(holds.FieldWrites(P).fields(ts[0]) & {'account'} or ts[0].key in wr_keys) if ts else False), 'the account setter'
                         return False, 'a known reply kind'
                     if lit is not None:
-                        okn = lit[1] == len(lit[0]) == k
+                        # the keyword compared whole, and the slice starts right after it - or one further on where the byte
+                        # after the keyword is known to be the blank (`AGAIN`, then `text[5] == ' ' ? text + 6 : text + 5`)
+                        okn = lit[1] == len(lit[0]) and (k == lit[1] or (k == lit[1] + 1 and (lit[1], 32) in bytes_fixed))
                         R.ob('C05.TAB.1', okn, s, 'text slice %s follows a %d-byte prefix test against %r with n=%s' % (sx(a), len(lit[0]), lit[0], lit[1]), key='slice:%s' % lit[0].strip())
                         ok, want = emitter_ok(lit[0])
                         R.ob('C05.TAB.1', ok, s, 'reply kind %r is relayed by %s (expected: %s)' % (lit[0], callee, want), key='emitter:%s' % lit[0].strip())
